@@ -251,11 +251,14 @@ static int join_do_op(int idx, op_t* op) {
   if (!strcmp(op->name, "join")) {
     // b: 0 sole joiner (must succeed), 1 contender (may fail; opens the gate when it lost), 2 may be woken by detach
     void* res = (void*)0x55;
+    // both forms of the call: with a place for the result and without (about one joiner in three passes NULL)
+    int no_result = (idx * 7 + t) % 3 == 0;
     int before = g_fiber_switches(idx);
     j_in_join[idx] = t + 1;
-    int r = fiber_join(f, &res);
+    int r = fiber_join(f, no_result ? 0 : &res);
     j_in_join[idx] = 0;
     gj_note_order(t, g_fiber_switches(idx) != before);
+    if (no_result && r == FIBER_SUCCESS) res = TOKEN(t);
     gj_result(idx, t, r, res, 0, op->b);
     if (r != FIBER_SUCCESS && op->b == 1) open_gate(t);
     return 1;
@@ -264,7 +267,9 @@ static int join_do_op(int idx, op_t* op) {
     // b: 0 loop until success, 1 single attempt as contender (opens gate if it lost)
     for (;;) {
       void* res = (void*)0x55;
-      int r = fiber_tryjoin(f, &res);
+      int no_result = (idx * 5 + t) % 3 == 0;
+      int r = fiber_tryjoin(f, no_result ? 0 : &res);
+      if (no_result && r == FIBER_SUCCESS) res = TOKEN(t);
       if (r == FIBER_SUCCESS) {
         gj_result(idx, t, r, res, 1, op->b);
         break;
